@@ -221,6 +221,16 @@ def load(repo):
                                                  and x.value.func.id == '__cdecl__' and x.value.args and isinstance(x.value.args[0], ast.Constant)
                                                  and x.value.args[0].value in cnames)] or [ast.Pass()]
     from . import objflat
+
+    # pointers are erased by this front end (`&x` reads x), so dereferencing one reads the variable as well
+    class _Deref(ast.NodeTransformer):
+        def visit_Call(self, node):
+            self.generic_visit(node)
+            if isinstance(node.func, ast.Name) and node.func.id in ('deref', 'dereference') and len(node.args) == 1 and not node.keywords:
+                return node.args[0]
+            return node
+    _Deref().visit(tree)
+    objflat.inline_worker(tree, 'run', 'parse_sentence')
     flattened = objflat.flatten(tree)
     mod = PyModule(REL, text, tree)
     mod.normalised = norm
